@@ -24,6 +24,10 @@ type C04Case struct {
 	SynthN     uint64   `json:"synth_n,omitempty"`
 	SynthRoots []string `json:"synth_roots,omitempty"`
 	Tuple      Tuple    `json:"tuple"`
+	// Deep > 0: the state is ONE tree of 2^Deep leaves of which only leaf 0 and its path are known
+	// (a light client's view): true claims exist for a node on every row up to Deep. Stump verifiers
+	// get the one-root stump, the map forest is NewMapPollardFromRoots of it. Overrides the above.
+	Deep       int      `json:"deep,omitempty"`
 	Adds       int      `json:"adds,omitempty"` // additions passed to Stump.Update
 	Remember   bool     `json:"remember,omitempty"`
 }
@@ -84,7 +88,17 @@ func genC04(t *rapid.T) C04Case {
 		c.Blocks = append(c.Blocks, genBlock(t, f, lim, true))
 	}
 	v := f.View()
-	mode := rapid.SampledFrom([]string{"real", "real", "embedded", "synth"}).Draw(t, "statemode")
+	mode := rapid.SampledFrom([]string{"real", "real", "embedded", "synth", "deep"}).Draw(t, "statemode")
+	if mode == "deep" {
+		c.Blocks = nil
+		c.Deep = rapid.SampledFrom([]int{1, 2, 5, 8, 16, 31, 32, 33, 40, 47, 62, 63}).Draw(t, "deep")
+		df, dv := deepView(c.Deep)
+		hostileRows = []int{63, c.Deep + 1}
+		c.Tuple = genHostileTuple(t, df, dv, false, true)
+		c.Adds = rapid.IntRange(0, 3).Draw(t, "adds")
+		c.Remember = rapid.Bool().Draw(t, "remember")
+		return c
+	}
 	switch mode {
 	case "embedded":
 		lowBits := uint(bits.Len64(f.N()))
@@ -126,8 +140,102 @@ func copyStump(s u.Stump) u.Stump {
 	return u.Stump{Roots: cloneHashes(s.Roots), NumLeaves: s.NumLeaves}
 }
 
+// deepView builds the light-client view of a single tree of 2^k leaves: leaf 0, the sibling of every
+// node on its path (fresh, non-zero hashes) and the path nodes up to the root.
+func deepView(k int) (*model.Forest, *model.View) {
+	R := uint8(k)
+	f := &model.Forest{Hashes: []Hash{model.LeafHash(0)}, Dead: []bool{false}}
+	v := &model.View{N: uint64(1) << uint(k), R: R, At: map[uint64]Hash{}, NodeAt: map[uint64]*model.Node{}, LeafPos: map[Hash]uint64{},
+		SlotPos: map[int]uint64{}, IsRoot: map[uint64]bool{}}
+	cur := &model.Node{Hash: f.Hashes[0], Slot: 0, Pos: 0, Row: 0}
+	v.LeafPos[cur.Hash], v.SlotPos[0] = 0, 0
+	put := func(n *model.Node) { v.At[n.Pos], v.NodeAt[n.Pos] = n.Hash, n }
+	put(cur)
+	for r := uint8(0); r < R; r++ {
+		sib := &model.Node{Hash: model.FreshHash(9000 + int(r)), Slot: -1, Pos: model.Pos(r, 1, R), Row: r}
+		par := &model.Node{Hash: model.ParentHash(cur.Hash, sib.Hash), Slot: -1, L: cur, R: sib, Pos: model.Pos(r+1, 0, R), Row: r + 1}
+		cur.Up, sib.Up = par, par
+		put(sib)
+		put(par)
+		cur = par
+	}
+	rp := model.Pos(R, 0, R)
+	v.IsRoot[rp] = true
+	v.RootPos, v.Roots = []uint64{rp}, []Hash{cur.Hash}
+	v.Trees = []model.TreeInfo{{Height: R, First: 0, RootPos: rp, Root: cur}}
+	return f, v
+}
+
+// runC04Deep: the deep single-tree state. Same oracles, on Verify, Stump.Update and a map forest
+// started from the bare root.
+func runC04Deep(c C04Case, res *Result) *Result {
+	if c.Deep < 1 || c.Deep > 63 {
+		return res.failf("case error: deep %d", c.Deep)
+	}
+	f, v := deepView(c.Deep)
+	hs, proof, err := tupleToArgs(c.Tuple, f, v)
+	if err != nil {
+		return res.failf("case error: %v", err)
+	}
+	stump := u.Stump{Roots: cloneHashes(v.Roots), NumLeaves: v.N}
+	res.class(fmt.Sprintf("state:deep-%d", c.Deep))
+	for _, m := range c.Tuple.Mut {
+		res.class("mut:" + m)
+	}
+	budget := 10000 + 1000*(len(hs)+len(proof.Targets)+len(proof.Proof)+c.Adds)
+	accepted := 0
+	var verr error
+	if e := guarded(budget, func() { _, verr = u.Verify(copyStump(stump), cloneHashes(hs), cloneProof(proof)) }); e != nil {
+		return res.failf("Verify(one tree of 2^%d leaves, targets %v, %d proof hashes): %v", c.Deep, proof.Targets, len(proof.Proof), e)
+	}
+	if verr == nil {
+		accepted++
+	}
+	work := copyStump(stump)
+	_, addH := mkLeaves(1, c.Adds, nil)
+	var uerr error
+	if e := guarded(budget, func() { _, uerr = work.Update(cloneHashes(hs), addH, cloneProof(proof)) }); e != nil {
+		return res.failf("Stump.Update(one tree of 2^%d leaves, targets %v, %d adds): %v", c.Deep, proof.Targets, c.Adds, e)
+	}
+	if uerr != nil {
+		if work.NumLeaves != stump.NumLeaves || !eqHashes(work.Roots, stump.Roots) {
+			return res.failf("Stump.Update (one tree of 2^%d leaves, targets %v, %d adds) rejected its input (%v) but changed the stump: leaves %d->%d, roots %s -> %s",
+				c.Deep, proof.Targets, c.Adds, uerr, stump.NumLeaves, work.NumLeaves, shortHs(stump.Roots), shortHs(work.Roots))
+		}
+		res.count("update_rejections_checked_atomic", 1)
+	} else {
+		accepted++
+	}
+	m := u.NewMapPollardFromRoots(cloneHashes(v.Roots), v.N, false)
+	var merr error
+	if e := guarded(budget, func() {
+		merr = m.VerifyPartialProof(cloneU64(proof.Targets), cloneHashes(hs), cloneHashes(proof.Proof), false)
+	}); e != nil {
+		return res.failf("MapPollard (from the root of 2^%d leaves) VerifyPartialProof(targets %v): %v", c.Deep, proof.Targets, e)
+	}
+	if e := guarded(budget, func() { merr = m.Verify(cloneHashes(hs), cloneProof(proof), c.Remember) }); e != nil {
+		return res.failf("MapPollard (from the root of 2^%d leaves) Verify(targets %v, remember=%v): %v", c.Deep, proof.Targets, c.Remember, e)
+	}
+	if merr == nil {
+		accepted++
+	}
+	if c.Remember {
+		if e := guarded(budget, func() {
+			merr = m.VerifyPartialProof(cloneU64(proof.Targets), cloneHashes(hs), cloneHashes(proof.Proof), true)
+		}); e != nil {
+			return res.failf("MapPollard (from the root of 2^%d leaves) VerifyPartialProof(remember=true, targets %v): %v", c.Deep, proof.Targets, e)
+		}
+	}
+	res.count("calls_accepted", accepted)
+	res.NonTrivial = len(hs) == len(proof.Targets)
+	return res
+}
+
 func runC04(c C04Case) *Result {
 	res := &Result{}
+	if c.Deep != 0 {
+		return runC04Deep(c, res)
+	}
 	cfgs := []Cfg{{Kind: "pollard"}, c.Map}
 	ls := newLockstep(cfgs)
 	for i, b := range c.Blocks {
